@@ -252,6 +252,18 @@ def check(prop_id, tier, seed):
         else:
             undecided.append({"obligation": o["name"], "reason": "sat, not in the proved baseline, replay found no failing input"})
 
+    # named obligations first, then closed families, then (at most 5 per task) bounded stand-ins
+    def rank(v):
+        return 0 if str(v.get("source", "")).startswith("obligation") else (2 if v.get("bounded") else 1)
+    per_src = {}
+    kept = []
+    for v in sorted(violations, key=rank):
+        n = per_src.get(v["source"], 0)
+        per_src[v["source"]] = n + 1
+        if rank(v) == 0 or n < 5:
+            kept.append(v)
+    violations = kept
+
     # ---- known findings: print one line per listed finding that still reproduces
     for k in known_seen:
         log("KNOWN-FINDING: property=%s %s" % (prop_id, k["what"]))
